@@ -71,7 +71,7 @@ P = {
    note="That every partition is assigned, and to exactly one member, needs reasoning about the algorithm's state (execution or a solver) and is outside this technique family.",
    technique="SSA guard (dominating-predicate) queries and provenance matching"),
  "C10": dict(claimed=True,
-   text="Decided by abstract interpretation of integer bounds over SSA (lower bound, input-bounded/constant upper bound, bit widths of the target architecture, branch refinement, getter summaries computed from real_decoder.go and trusted only after the paired error test) plus guard/path rules: every raw-buffer access and cursor advance of realDecoder is justified by a still-valid remaining() ≥ need test (bulk loops by remaining() ≥ w·n); every make() reachable from the decoders of untrusted data has a non-negative, input-bounded or small-constant size; response-size cap; whole-buffer-consumed and length/CRC mismatch = error; decode loops make progress.",
+   text="Decided by abstract interpretation of integer bounds over SSA (lower bound, input-bounded/constant upper bound, bit widths of the target architecture, branch refinement, getter summaries computed from real_decoder.go and trusted only after the paired error test) plus guard/path rules: no decoding step whose error is non-nil is answered with `return nil` (434 steps; only the tabled ErrInsufficientData idiom is exempt); every raw-buffer access and cursor advance of realDecoder is justified by a still-valid remaining() ≥ need test (bulk loops by remaining() ≥ w·n); every make() reachable from the decoders of untrusted data has a non-negative, input-bounded or small-constant size; response-size cap; whole-buffer-consumed and length/CRC mismatch = error; decode loops make progress.",
    note="Memory use of decompression, third-party codecs, CRC collision strength and semantic validity of decoded values are not covered. Trusted library contracts: binary.Varint/Uvarint return |n| ≤ len(buf); binary.PutVarint ≤ 10.",
    technique="abstract interpretation (interval-like domain with symbolic 'input-bounded' bound) over go/ssa + dominating-guard validity analysis"),
  "C09": dict(claimed=True,
